@@ -12,6 +12,8 @@ R.func('ALTSEP', [], 'Opt[Str]')
 R.const_exprs.update({'os.path.sep': 'SEP()', 'os.path.altsep': 'ALTSEP()'})
 R.axiom("forall('Path', lambda p: resolve(resolve(p)) == resolve(p))", name='A-path: resolve is idempotent (its result is canonical)')
 R.record('Path', pure={'parent': 'parent(self)'})
+R.contract('trusted:Path', trusted=True, params={'p': 'Path'}, returns='Path', pure=True, defn='p',
+    note='pathlib.Path(p) of a path (or of its string form) denotes the same, unresolved, path')
 R.contract('trusted:Path.resolve', trusted=True, self_type='Path', params={}, returns='Path', pure=True, defn='resolve(self)')
 R.alias('Path', 'resolve', 'trusted:Path.resolve')
 
